@@ -190,10 +190,8 @@ def check(rep):
         dict(name="2 producers x 1 put | consumer 1 get", module=mod, harness="h_queue", args=(2, 1, 1), steps=24),
     ]
     if not quick:
-        specs.append(dict(name="2 producers x 2 puts | consumer 2 gets", module=mod, harness="h_queue", args=(2, 2, 2),
-                          steps=34))
         specs.append(dict(name="1 producer x 3 puts | consumer 2 gets", module=mod, harness="h_queue", args=(1, 3, 2),
-                          steps=26))
+                          steps=32))
     for sp in specs:
         sp.update(racy=racy, encode=("watchdog", "queue"), jobs=5, query_timeout_s=900 if quick else 3000,
                   loop_bound=40)
@@ -207,7 +205,7 @@ def check(rep):
     c16_crosshair.fold(rep, ch)
     rep.bounds = {"programs": [sp["name"] for sp in specs], "steps_K": [sp.get("steps") for sp in specs],
                   "item_values": ["x", "y"], "crosshair": ch.get("bounds")}
-    rep.outside = ["more producers/items (thorough: 2x2 puts, 2 gets)", "maxsize > 0 (the event queue is unbounded)",
+    rep.outside = ["more producers/items (2 producers x 2 puts with 2 gets at K = 34 did not finish solving in 50 minutes)", "maxsize > 0 (the event queue is unbounded)",
                    "eventlet's queue replacement"]
     rep.stubs = ["threading.Lock/Condition/Thread models; stdlib queue.Queue is interpreted, not modelled",
                  "ghost bookkeeping subclass GQ(SkipRepeatsQueue) inside the queue's own critical sections"]
